@@ -37,6 +37,54 @@ def _g(a):
     return '%d %s %s' % (a.shape[0], enc_list(a.indptr), enc_list(a.indices))
 
 
+def twin_graphs(ctx, count):
+    """two disjoint copies of a dense irregular graph, renumbered: refinement-equivalent nodes with different
+    neighbour sets of mixed colours and high degree — where the float hash sums in different orders"""
+    rng = ctx.rng
+    out = []
+    for _ in range(count):
+        m = rng.randint(14, 26)
+        es = graphs.random_edges(rng, m, rng.choice([0.5, 0.65]), directed=False)
+        es2 = es + [(i + m, j + m) for (i, j) in es]
+        a = graphs.csr_from_edges(2 * m, es2)
+        perm = list(range(2 * m))
+        rng.shuffle(perm)
+        out.append(graphs.permute_csr(a, perm))
+    return out
+
+
+def wl_twin_cases(ctx, mats):
+    from sknetwork.topology import color_weisfeiler_lehman, are_isomorphic
+    cases = []
+    rng = ctx.rng
+    for a in mats:
+        n = a.shape[0]
+        pw = (-np.pi / 3.15) ** np.arange(n, dtype=np.double)
+        pwt = enc_list([_bits(x) for x in pw])
+        gdesc = {'n': n, 'indptr': a.indptr.tolist(), 'indices': a.indices.tolist()}
+        impl = call(lambda: 'ok ' + enc_list(color_weisfeiler_lehman(a)))
+        run = 'c02.wl %s %s -1' % (_g(a), pwt)
+        spec = 'c02.spec_stable %s %s' % (_g(a), impl[3:]) if impl.startswith('ok') else None
+        cases.append(Case(('wl-twin', _g(a)), {'entry': 'color_weisfeiler_lehman', 'max_iter': -1, 'family': 'twins'}, run, impl, spec, True,
+                          {'f': 'color_weisfeiler_lehman', 'graph': gdesc, 'max_iter': -1}))
+        # the statement on the implementation: a renumbered copy gets the renumbered colours and passes the test
+        perm = list(range(n))
+        rng.shuffle(perm)
+        b = graphs.permute_csr(a, perm)
+        try:
+            ok1 = np.array_equal(np.asarray(color_weisfeiler_lehman(b)), _perm_vec(np.asarray(color_weisfeiler_lehman(a)), perm))
+            iso = are_isomorphic(a, b)
+            why = None if (ok1 and iso is True or (ok1 and bool(iso))) else ('colours of the renumbered graph are not the renumbered colours' if not ok1 else 'are_isomorphic(G, PG) = %r' % iso)
+        except Exception as e:  # noqa
+            why = 'raises ' + type(e).__name__ + ': ' + str(e)[:80]
+        ctx.case(('wl-twin-relabel', _g(a), tuple(perm)), True, None)
+        ctx.count('relation:WL-twins')
+        if why:
+            ctx.spec_fail({'entry': 'color_weisfeiler_lehman', 'relation': 'relabel', 'family': 'twins'},
+                          {'f': 'color_weisfeiler_lehman', 'graph': gdesc, 'perm': perm}, {'why': why})
+    return cases
+
+
 def wl_cases(ctx, mats):
     from sknetwork.topology import color_weisfeiler_lehman
     cases = []
@@ -320,6 +368,7 @@ def _rel_mats(ctx, quick):
 def run(ctx):
     quick = ctx.quick
     evaluate(ctx, wl_cases(ctx, _wl_mats(ctx, quick)))
+    evaluate(ctx, wl_twin_cases(ctx, twin_graphs(ctx, 6 if quick else 60)))
     relation_cases(ctx, _rel_mats(ctx, quick), perms_per=2 if quick else 24)
 
 
@@ -335,7 +384,10 @@ def replay(ctx, payload):
     if case.get('f') == 'color_weisfeiler_lehman':
         g = case['graph']
         a = sparse.csr_matrix((np.ones(len(g['indices'])), np.array(g['indices']), np.array(g['indptr'])), shape=(g['n'], g['n']))
-        evaluate(ctx, wl_cases(ctx, [a]))
+        if g['n'] > 14:
+            evaluate(ctx, wl_twin_cases(ctx, [a]))
+        else:
+            evaluate(ctx, wl_cases(ctx, [a]))
     elif 'graph' in case and 'dense' in case['graph']:
         a = sparse.csr_matrix(np.array(case['graph']['dense'], dtype=float))
         relation_cases(ctx, [a], perms_per=24)
